@@ -2,7 +2,7 @@
     Only statements, each closed by [exact <lemma>] (or a short wrapper), with [Print Assumptions]. *)
 From Coq Require Import List ZArith NArith Bool Lia.
 From DH Require Import Lib.CheckLib Model.Store Model.FeedSpec Model.Compact Proofs.StoreProofs
-     Proofs.CompactProofs Proofs.CompactWitness Check.C12Check Proofs.C12CheckProofs.
+     Proofs.C01Proofs Proofs.CompactProofs Proofs.CompactWitness Check.C12Check Proofs.CompactReaders Proofs.CompactRace Proofs.C12CheckProofs.
 Import ListNotations.
 Open Scope Z_scope.
 
@@ -139,7 +139,76 @@ Theorem C12_latest_order_changes :
 Proof. vm_compute. split; reflexivity. Qed.
 Print Assumptions C12_latest_order_changes.
 
-(** ** link to the evaluator (partial: the feed clause; the gap is described in Proofs/C12CheckProofs.v) *)
+(** C12_crash, feed clause: whatever number of flushes was committed before the process died, the feed left behind
+    de-duplicates to the same feed as the one before: only versions identical to their immediate predecessor are missing. *)
+Theorem C12_crash_feed : forall fl thr order k d,
+  f_lenkeys fl = false -> cinv d -> NoDup order ->
+  spec_compact (feed_of (compact_crash cf_fixed fl thr order k d)) = spec_compact (feed_of d).
+Proof. exact crash_feed. Qed.
+Print Assumptions C12_crash_feed.
+
+(** ** reader level, in states whose sequence numbers may have gaps *)
+
+(** The latest-only feed read from the start and the unpaged listing are both "one entry per entity that has a
+    version, carrying the content of its last version" ... *)
+Theorem C12_latest_only_is_view : forall d, cinv d -> seqs_nonneg d -> is_view d (m_latest d).
+Proof. exact m_latest_view. Qed.
+Print Assumptions C12_latest_only_is_view.
+Theorem C12_listing_is_view : forall d, cinv d -> is_view d (m_listing d).
+Proof. exact m_listing_view. Qed.
+Print Assumptions C12_listing_is_view.
+
+(** ... so after a complete or interrupted repaired compaction both return, sorted by entity, pointwise identical lists. *)
+Theorem C12_views_unchanged : forall d d' l l', is_view d l -> is_view d' l' -> inv_rel d d' ->
+  oents_eqb (osort l') (osort l) = true.
+Proof. intros d d' l l' H H' Hr. exact (views_same d d' l l' H H' (ir_last _ _ Hr)). Qed.
+Print Assumptions C12_views_unchanged.
+
+(** A lookup scoped to the dataset, now or at ANY instant: same partials (identical content), same deleted flag. *)
+Theorem C12_lookup_unchanged : forall st ds d' id at_,
+  keys_sorted st -> cinv (get_ds st ds) -> inv_rel (get_ds st ds) d' ->
+  let r' := entity_at (set_ds st ds d') id at_ [ds] in
+  let r := entity_at st id at_ [ds] in
+  list_eqb partial_eqb (fst r') (fst r) = true /\ snd r' = snd r.
+Proof. exact lookup_same. Qed.
+Print Assumptions C12_lookup_unchanged.
+
+(** ** racing writer, repaired variant (compare-and-set re-point; write path with full equality, any in-batch mode) *)
+
+(** A batch committed (at a time later than every stored version) after ANY number [k] of flushes commutes with the
+    remaining flushes: the final state has exactly the versions, change log, next sequence number and per-entity
+    latest pointer of "compact completely, then write" - so writes in flight are neither lost nor shadowed. *)
+Theorem C12_race_commutes : forall dm thr order k t clk ents d,
+  cinv d -> times_le clk (d_entries d) -> clk < t -> NoDup order ->
+  deq (compact_race cf_fixed eq_full dm thr order k t ents d)
+      (store_batch_ds eq_full dm t ents (compact_ds cf_fixed eq_full thr order d)).
+Proof. exact race_commutes. Qed.
+Print Assumptions C12_race_commutes.
+
+Theorem C12_deq_observables : forall d1 d2, deq d1 d2 ->
+  feed_of d1 = feed_of d2 /\ (forall id, stored_latest d1 id = stored_latest d2 id)
+  /\ (forall id at_ best, best_version id at_ (d_entries d1) best = best_version id at_ (d_entries d2) best).
+Proof. exact deq_observables. Qed.
+Print Assumptions C12_deq_observables.
+
+(** ** link to the evaluator *)
+
+(** In any model state whose dataset satisfies the invariant: if the repaired model predicts the reads taken before
+    and after an un-raced compaction - complete, or killed at any flush - the WHOLE executable spec holds on those
+    observations (no failing read; latest-only feed as a set, listing, all lookups current and point in time and
+    relations unchanged; full feed = previous one minus the versions identical to their immediate predecessor, resp.
+    same de-duplicated feed after a kill). *)
+Theorem C12_agree_implies_spec : forall st ds thr crash order o_fl o_cr o_rn before after,
+  let d := get_ds st ds in
+  cinv d -> seqs_nonneg d -> keys_sorted st -> NoDup order ->
+  (forall id, assoc id (d_latest d) <> None -> In id order) ->
+  map gkey (ro_gets after) = map gkey (ro_gets before) ->
+  snd (fst (agree_op v_fixed false st (CCompact ds thr crash None order o_fl o_cr false o_rn before after))) = true ->
+  spec_op_ok (CCompact ds thr crash None order o_fl o_cr false o_rn before after) = true.
+Proof. exact agree_compact_spec. Qed.
+Print Assumptions C12_agree_implies_spec.
+
+(** the earlier, weaker statement (feed clause of a complete run) is kept *)
 Theorem C12_agree_implies_spec_partial : forall st ds thr order o_fl o_rn before after,
   let d := get_ds st ds in
   cinv d -> Forall (fun e => 0 <= en_seq e) (d_entries d) -> NoDup order ->
@@ -167,3 +236,35 @@ Example C12_ex_removes :
   /\ length (plan cf_fixed fl_fixed 1 d_nnn [1; 2]) = 3%nat
   /\ length (feed_of (compact_crash cf_fixed fl_fixed 1 [1; 2] 1 d_nnn)) = 4%nat.
 Proof. vm_compute. repeat split; reflexivity. Qed.
+
+(** the additional hypotheses of the reader-level theorems hold in that state, and the evaluator link is not vacuous:
+    the repaired model predicts its own reads around a compaction killed at the second flush *)
+Example C12_ex_reader_hyps : seqs_nonneg d_nnn /\ keys_sorted st_nnn.
+Proof.
+  split.
+  - unfold seqs_nonneg. apply Forall_forall. intros x Hx. vm_compute in Hx.
+    repeat (destruct Hx as [<-|Hx]; [vm_compute; discriminate|]). destruct Hx.
+  - vm_compute. repeat split; constructor.
+Qed.
+Example C12_ex_agree :
+  let gets st := map (fun id => let r := entity_at st id (s_clock st) [1] in
+                       {| g_id := id; g_at := None; g_found := true; g_parts := fst r;
+                          g_del := match fst r with [] => snd r | _ => false end |}) [1; 2; 3] in
+  let robs_of st := {| ro_full := m_full (get_ds st 1); ro_latest := m_latest (get_ds st 1); ro_listing := m_listing (get_ds st 1);
+                       ro_gets := gets st; ro_rels := []; ro_bad := false |} in
+  let st' := cr_store (compact_store v_fixed st_nnn 1 1 2 None [1; 2]) in
+  snd (fst (agree_op v_fixed false st_nnn (CCompact 1 1 2 None [1; 2] 2 true false 0 (robs_of st_nnn) (robs_of st')))) = true
+  /\ length (ro_full (robs_of st')) = 4%nat.
+Proof. vm_compute. split; reflexivity. Qed.
+
+(** the racing-writer theorem is not vacuous: three versions of e1 in the snapshot (two duplicates), the writer commits
+    c after the first of two flushes; hypotheses hold and the feed ends N(e1), a(e2), c(e2), c(e1) and the latest pointer of e1 names c *)
+Example C12_ex_race :
+  times_le 5 (d_entries d_nnn) /\ 5 < 9
+  /\ feed_ids (feed_of (compact_race cf_fixed eq_full DupLocalElseStored 1 [1; 2] 1 9 race_c d_nnn)) = [(1, 7); (2, 1); (2, 3); (1, 3)]
+  /\ option_map (fun c => feed_ids [(1, c)]) (stored_latest (compact_race cf_fixed eq_full DupLocalElseStored 1 [1; 2] 1 9 race_c d_nnn) 1) = Some [(1, 3)].
+Proof.
+  split; [|split; [lia | vm_compute; split; reflexivity]].
+  unfold times_le. apply Forall_forall. intros x Hx. vm_compute in Hx.
+  repeat (destruct Hx as [<-|Hx]; [vm_compute; discriminate|]). destruct Hx.
+Qed.
